@@ -11,6 +11,9 @@ def main():
     ap.add_argument('--seed', type=int, default=int(os.environ.get('VERIF_SEED', '1') or 1))
     ap.add_argument('--replay', default=None)
     a = ap.parse_args()
+    if a.prop == 'selftest':
+        import selftest
+        return selftest.main()
     import interp_check
     if a.prop in interp_check.CONFIGS:
         return interp_check.main(a.prop, a.tier, a.seed, a.replay)
